@@ -73,9 +73,11 @@ Theorem cancel_kill_then_answer : forall lookup d caller req opts ikey inv x,
     pending d (caller, req) ikey inv x -> inv_canceled inv = false ->
     callee_can_cancel lookup inv = true ->
     let d1 := fst (cancel lookup d caller req opts) in
-    (forall yopts args kw, opt_bool yopts "progress" = false ->
-       exists d2, sync_yield d1 (fst ikey) (snd ikey) yopts args kw = (d2, [(caller, RResult req [] args kw)]) /\
-                  gone d2 (caller, req) ikey) /\
+    (forall lk yopts args kw, opt_bool yopts "progress" = false ->
+       exists d2 o, sync_yield lk d1 (fst ikey) (snd ikey) yopts args kw = (d2, o) /\
+                    gone d2 (caller, req) ikey /\
+                    (exists m, In m o /\ reply_of m = Some ((caller, req), true)) /\
+                    (ppt_active yopts = false -> o = [(caller, RResult req [] args kw)])) /\
     (forall det err args kw,
        exists d2, sync_error d1 (fst ikey) (snd ikey) det err args kw = (d2, [(caller, RError c_CALL req det err args kw)]) /\
                   gone d2 (caller, req) ikey).
@@ -87,7 +89,7 @@ Example cancel_kill_ex :
     (exists ikey inv x, pending d3 (10, 7) ikey inv x /\ inv_canceled inv = false /\
                         callee_can_cancel (lk 1 0) inv = true) /\
     snd (cancel (lk 1 0) d3 10 7 kill_opts) = [(11, RInterrupt 1 [("reason", vuri e_canceled); ("mode", vstr "kill")])] /\
-    snd (sync_yield d4 11 1 [] [vnat 3] []) = [(10, RResult 7 [] [vnat 3] [])].
+    snd (sync_yield (lk 1 0) d4 11 1 [] [vnat 3] []) = [(10, RResult 7 [] [vnat 3] [])].
 Proof.
   split; [exact wf_d3|]. split; [eexists; eexists; eexists; vm_compute; repeat split; reflexivity|].
   vm_compute. split; reflexivity.
